@@ -228,6 +228,7 @@ func c19Corpus() map[string]string {
 
 var c19AttrVals = []string{
 	`a > b`, `a &amp;&amp; b`, `x &lt; 1 ? 'y' : 'n'`, `say &quot;hi&quot;`, `it's`, `{ on: a > 1, off: !b }`, "multi\n    line   value", `  padded  `,
+	"Voilà déjà vu", "Ångström Å", "dagger † sign", "nb sp inside", "日本語 テキスト", "smile 🙂 ok", "Größe: 10 µm", "à", "Å  †",
 	`{{ v }} and &amp; more`, `a&amp;b=c`, `&copy; 2026`, `x >= 1 &amp;&amp; y <= 2`, `[1, 2, 3]`, `fn('a', &quot;b&quot;)`, `100%`, `#/path?a=1&amp;b=2`,
 }
 var c19Mustaches = []string{`{{ a < b }}`, `{{ a > b && c }}`, `{{ x | upper }}`, `{{ a ? "<" : '&' }}`, `{{ items[0].name }}`, `{{  spaced   out  }}`, `{{ a }}{{ b }}`, `{{ "&lt;" }}`, `{{ a &lt;b }}`, `{{ x &lt;/y }}`, `{{ "&amp;lt;" }}`, `{{ a &amp;&amp; b }}`, `{{ n >= 10 ? "10+" : n }}`}
